@@ -142,6 +142,11 @@ impl Out {
     }
 }
 
+/// nanoseconds this thread has spent on a processor (first field of /proc/thread-self/schedstat)
+fn thread_cpu_ns() -> Option<u64> {
+    std::fs::read_to_string("/proc/thread-self/schedstat").ok()?.split_whitespace().next()?.parse().ok()
+}
+
 /// one checked call: evaluate, record, compare with the expectation; returns the outcome
 pub fn checked_call(out: &mut Out, e: &str, input: &str, ph: &Val, exp: Option<&crate::expect::Exp>, claim: Value, nontrivial: bool, ctx: &Value) -> Outcome {
     if let Some(f) = &out.cur_file { let _ = std::fs::write(f, input); }
@@ -152,7 +157,13 @@ pub fn checked_call(out: &mut Out, e: &str, input: &str, ph: &Val, exp: Option<&
     // (so that a descheduled process cannot raise the alarm).
     if t0.elapsed().as_millis() > 1000 && input.chars().count() <= 256 {
         let mut best = t0.elapsed();
-        for _ in 0..2 { let t1 = std::time::Instant::now(); let _ = call(e, input, ph); best = best.min(t1.elapsed()); }
+        for _ in 0..2 {
+            let (t1, c1) = (std::time::Instant::now(), thread_cpu_ns());
+            let _ = call(e, input, ph);
+            // processor time of this thread where the kernel reports it, else wall time
+            let spent = match (c1, thread_cpu_ns()) { (Some(a), Some(b)) if b >= a => std::time::Duration::from_nanos(b - a), _ => t1.elapsed() };
+            best = best.min(spent);
+        }
         if best.as_millis() > 1000 {
             out.finding("budget", e, input, ph, "the call returns promptly (microseconds; bound: 4096+256*len counted steps)", &format!("{} ms for {} counted steps", best.as_millis(), t.total()), ctx.clone());
         }
@@ -266,11 +277,53 @@ pub fn renderable(kinds: &[String]) -> bool {
     true
 }
 
+fn completions(prefix: &[String], kinds_e: &[String]) -> Vec<Vec<String>> {
+    let has = |k: &str| kinds_e.iter().any(|x| x == k);
+    let last = match prefix.last() { Some(l) => l.as_str(), None => return vec![] };
+    let sv = |xs: &[&str]| xs.iter().map(|x| x.to_string()).collect::<Vec<String>>();
+    let mut tails: Vec<Vec<String>> = match last {
+        "f1" | "fv" | "fa" => vec![sv(&["lp", "num", "rp"])],
+        "f2" => vec![sv(&["lp", "num", "comma", "num", "rp"])],
+        "lp" | "lf" | "lc" | "comma" => vec![sv(&["num"])],
+        "num" | "ans" | "const" | "rp" | "rf" | "rc" | "bang" | "sup" | "deg" | "rad" => vec![sv(&["add", "num"]), vec![]],
+        "bad" => vec![],
+        _ => vec![sv(&["num"])],        // a binary operator or a sign
+    };
+    if tails.is_empty() { return vec![]; }
+    // close what is open, innermost first
+    let mut open: Vec<&str> = Vec::new();
+    for k in prefix.iter().map(|k| k.as_str()).chain(tails[0].iter().map(|k| k.as_str())) {
+        match k { "lp" => open.push("rp"), "lf" => open.push("rf"), "lc" => open.push("rc"), "rp" | "rf" | "rc" => { open.pop(); } _ => {} }
+    }
+    let closers: Vec<String> = open.iter().rev().map(|c| c.to_string()).collect();
+    let mut out = Vec::new();
+    for t in tails.drain(..) {
+        if t.is_empty() && closers.is_empty() { continue; }
+        if t.iter().chain(closers.iter()).any(|k| !has(k)) { continue; }
+        let mut ks = prefix.to_vec();
+        ks.extend(t);
+        ks.extend(closers.iter().cloned());
+        out.push(ks);
+    }
+    out
+}
+
 /// A sequence the parser has already rejected stays rejected whatever follows (ParseFn!Viable is false):
 /// extend minimal rejected prefixes by random tokens and require Err.
 pub fn replay_reject_suffixes(out: &mut Out, v: &Vocab, e: &str, b: &Beh, pol: &Policy, rng: &mut Rng, n: usize) {
-    if b.verdict != "reject" || !b.renderable || b.numnum { return; }
+    if b.verdict != "reject" || b.numnum { return; }
     let kinds_e: Vec<String> = v.kinds[e].clone();
+    // directed completions: what a reader would type next to make the rejected prefix "look finished" - an argument list after a
+    // function name, an operand after an operator or an opening bracket, a further term after an operand - with every open
+    // bracket closed.  (`@abs` is rejected at two tokens; a parser that wrongly continues it shows only on `@abs(2)`.)
+    for ks in completions(&b.kinds, &kinds_e) {
+        if !renderable(&ks) { continue; }
+        let r = match render(v, e, &ks, pol) { Some(r) => r, None => continue };
+        let ctx = json!({"toks": ks, "verdict": "reject", "prefix": b.kinds, "completion": true});
+        checked_call(out, e, &r.text, &default_placeholder(e), Some(&reject_exp()), json!({"kinds": ks, "v": "reject"}), true, &ctx);
+    }
+    // (a prefix that ends in a function name cannot be rendered by itself - the name needs its bracket - but its completion can)
+    if !b.renderable { return; }
     for _ in 0..n {
         let mut ks = b.kinds.clone();
         let extra = 1 + rng.below(3);
